@@ -1372,6 +1372,18 @@ fn producer_before(producers: &[usize], consumer_tick: usize) -> Option<usize> {
     }
 }
 
+/// Verification hooks (feature `echo_verif`): the crate-private canonical state diff.
+#[cfg(feature = "echo_verif")]
+pub mod verif {
+    use super::{WarpOp, WarpState};
+
+    /// `diff_state(before, after)` exactly as the engine computes a tick patch's ops.
+    #[must_use]
+    pub fn diff_state(before: &WarpState, after: &WarpState) -> Vec<WarpOp> {
+        super::diff_state(before, after)
+    }
+}
+
 #[cfg(test)]
 mod tests {
     use super::*;
